@@ -56,7 +56,8 @@ def sval(frequency):
 class RefOp:
     """Reference operator for one grid / model / Laplace parameter."""
 
-    def __init__(self, hx, hy, hz, sigx, sigy, sigz, s, mu_r=None, eps_r=None):
+    def __init__(self, hx, hy, hz, sigx, sigy, sigz, s, mu_r=None, eps_r=None,
+                 volume_arrays=None):
         hx, hy, hz = (np.asarray(h, dtype=float) for h in (hx, hy, hz))
         nx, ny, nz = len(hx), len(hy), len(hz)
         self.shape = (nx, ny, nz)
@@ -67,8 +68,22 @@ class RefOp:
             return np.broadcast_to(np.asarray(a, dtype=float), shp)
 
         V = hx[:, None, None]*hy[None, :, None]*hz[None, None, :]
-        Z = V if mu_r is None else V/cell(mu_r)
-        disp = 0.0 if eps_r is None else s*epsilon_0*cell(eps_r)
+        if volume_arrays is not None:
+            # Level operator given directly by volume-integrated coefficients
+            # (as a multigrid level holds them): zeta = V/mu_r and
+            # eta_d = -s mu0 V (sigma_d + s eps); then s mu0 Me = -avg(eta).
+            Z = np.asarray(volume_arrays['zeta'], dtype=float)
+            vx, vy, vz = (-np.asarray(volume_arrays[k])/(s*mu_0)
+                          for k in ('eta_x', 'eta_y', 'eta_z'))
+            V = 1.0
+            sigx, sigy, sigz = vx, vy, vz
+            disp = 0.0
+
+            def cell(a):          # noqa - keep complex values
+                return np.broadcast_to(np.asarray(a), shp)
+        else:
+            Z = V if mu_r is None else V/cell(mu_r)
+            disp = 0.0 if eps_r is None else s*epsilon_0*cell(eps_r)
 
         self.nex = nx*(ny+1)*(nz+1)
         self.ney = (nx+1)*ny*(nz+1)
